@@ -130,3 +130,15 @@ Proof. vm_compute. reflexivity. Qed.
 Example C17_wrong_checksum_witness :
   decode_bip276 "bitcoin-script:020166616b65207363726970742577a445" = DErr EChecksum.
 Proof. vm_compute. reflexivity. Qed.
+
+(** the two prefixes and the version / network numbers used above are the constants of bscript/bip276.go
+    (regenerated from the Go source on every run) *)
+From GoBT Require Import gen.MiscConsts proofs.InterpConstsProofs proofs.MiscConstsProofs.
+Theorem C17_constants_match :
+  lookup bip276_consts "CurrentVersion" = Some 1%Z /\
+  lookup bip276_consts "NetworkMainnet" = Some 1%Z /\
+  lookup bip276_consts "NetworkTestnet" = Some 2%Z /\
+  lookup_s bip276_prefixes "PrefixScript" = Some "bitcoin-script"%string /\
+  lookup_s bip276_prefixes "PrefixTemplate" = Some "bitcoin-template"%string.
+Proof. exact bip276_consts_match. Qed.
+Print Assumptions C17_constants_match.
